@@ -41,15 +41,23 @@ LeafText(tg, c, atext) ==
     tg.cls \o "." \o tg.rate \o "#0(" \o
     Join([j \in 1..Len(tg.margs) |-> IF tg.margs[j].p > 0 THEN atext[c[tg.margs[j].p]] ELSE tg.margs[j].d]) \o ")"
 
+\* operators: a combination made of plain numbers only (no unit involved) is ordinary Python/builtin
+\* arithmetic, not graph building - its value is not part of this property (C15 owns it)
+NumbersOnly(t, c) == t.target.kind = "expr" /\ \A j \in 1..Len(c) : t.kinds[c[j]] \in {"n", "z", "b"}
+RECURSIVE Agree(_, _, _, _)
+Agree(t, res, exp, tab) ==
+    IF IsList(exp) THEN /\ IsList(res) /\ Len(res.v) = Len(exp.v)
+                        /\ \A i \in 1..Len(exp.v) : Agree(t, res.v[i], exp.v[i], tab)
+    ELSE NumbersOnly(t, exp.c) \/ res = Lookup(tab, exp.c).r
+
 GenericWhy(t, e) ==
     LET exp == Expand(t.args) IN
     IF ~HasAll(e.tab, exp) THEN "missing_single_calls"
-    ELSE LET sub == Subst(exp, e.tab)
-             ls == Leaves(sub)
-             cs == Leaves(exp)
-             exc == {i \in 1..Len(ls) : ls[i].k = "x"}
-             expected == IF exc = {} THEN sub ELSE ls[CHOOSE i \in exc : \A y \in exc : i <= y] IN
-         IF e.res # expected THEN "law"
+    ELSE LET cs == Leaves(exp)
+             exc == {i \in 1..Len(cs) : Lookup(e.tab, cs[i].c).r.k = "x"}
+             rel == {i \in exc : ~NumbersOnly(t, cs[i].c)} IN
+         IF e.res.k = "x" /\ (exc = {} \/ e.res # Lookup(e.tab, cs[CHOOSE i \in exc : \A y \in exc : i <= y].c).r) THEN "law"
+         ELSE IF e.res.k # "x" /\ (rel # {} \/ ~Agree(t, e.res, exp, e.tab)) THEN "law"
          ELSE IF exc = {} /\ e.n # SumSeq([i \in 1..Len(cs) |-> Lookup(e.tab, cs[i].c).n]) THEN "count"
          ELSE IF t.target.kind = "ctor"
                  /\ \E i \in 1..Len(cs) : \/ Lookup(e.tab, cs[i].c).n # 1
